@@ -290,6 +290,12 @@ End Process.
 Arguments Call {O} c.
 Arguments Perturb {O} np py.
 
+(* keys of _qpdbasis_from_instruction_funcs after import = the decorator arguments of decompositions.py in source
+   order (fact registry_names; obligation c09_facts_basis_registry) *)
+Definition import_basis : list string :=
+  ["swap"; "iswap"; "dcx"; "rxx"; "ryy"; "rzz"; "crx"; "cry"; "crz"; "cs"; "csdg"; "cp"; "csx"; "csxdg";
+   "cx"; "cy"; "cz"; "ch"; "ecr"; "move"].
+
 (* the state right after `import qiskit_addon_cutting` in a fresh interpreter whose global generators are in
    states np, py (their initial seeding comes from the operating system: arbitrary) *)
 Definition fresh_process (actions : action_names) (basis : list string) (np py : rng_state) : gstate :=
